@@ -18,12 +18,18 @@ def norm_hist(hist):
 
 # fixed multi-step stories (side, operation) whose schedules are explored more deeply: slots after each operation; 'flip' variants swap the sides
 STORIES = {
+    # (operations as (side, op), gap after each: n fine slots | ("Q", n) run until quiet or n fine slots, base tree)
     "create-in-folder-renamed-by-peer-then-edit": ([(0, "create_d_n"), (1, "rendir_d_e"), (0, "write_d_n")], [2, 2, 1], 2),
     "create-in-folder-removed-by-peer-then-edit": ([(0, "create_d_n"), (1, "rmdir_d"), (0, "write_d_n")], [2, 2, 1], 2),
-    "folder-renamed-recreated-child-moved-back": ([(0, "rendir_d_e"), (0, "mkdir_d"), (0, "mv:/e/a:/d/a")], [1, 1, 2], 3),
+    "folder-renamed-recreated-child-moved-back": ([(0, "rendir_d_e"), (0, "mkdir_d"), (0, "mv:/e/a:/d/a")], [("Q", 1), 1, 2], 3),
     "child-renamed-then-folder-peer-edits-child": ([(0, "mv:/d/a:/d/b"), (0, "rendir_d_e"), (1, "write_d_a")], [1, 2, 1], 3),
     "edit-vs-rename-then-edit": ([(0, "write_a"), (1, "rename_a_b"), (0, "write_a")], [2, 2, 1], 1),
-    "renamed-and-back-peer-edits": ([(0, "rename_a_b"), (0, "mv:/b:/a"), (1, "write_a")], [3, 1, 1], 1),
+    "renamed-and-back-peer-edits": ([(0, "rename_a_b"), (0, "mv:/b:/a"), (1, "write_a")], [("Q", 3), 1, 1], 1),
+    "edited-synced-edited-on-both": ([(0, "write_a"), (1, "write_a"), (0, "write_a")], [("Q", 1), 2, 1], 1),
+    "deleted-synced-recreated-on-peer": ([(0, "delete_a"), (1, "create_a"), (0, "create_a")], [("Q", 1), 2, 1], 1),
+    "moved-into-folder-peer-renames-folder": ([(0, "move_a_d"), (1, "rendir_d_e"), (0, "write_d_a")], [("Q", 1), 2, 1], 2),
+    "both-rename-same-file-differently-then-edit": ([(0, "rename_a_b"), (1, "rename_a_c"), (0, "write_b")], [1, 2, 1], 1),
+    "swap-through-temporary-name-peer-edits": ([(0, "mv:/a:/t"), (0, "mv:/b:/a"), (0, "mv:/t:/b"), (1, "write_a")], [1, 1, 1, 1], 3),
 }
 
 
@@ -68,7 +74,18 @@ def _factory(params, env=None):
             hist.append((side,) + tuple(d))
             if d[0] not in ("noop", "failed"):
                 real += 1
-            for j in range(story[1][k] if story else (params["slotsper"][k] if params.get("slotsper") else params["slots"])):
+            nslots = story[1][k] if story else (params["slotsper"][k] if params.get("slotsper") else params["slots"])
+            if not isinstance(nslots, int):
+                # ("Q", n): the solver chooses between letting the engine run until quiet and n fine slots
+                if e.choose("gap", 2) == 0:
+                    hist.append("Q")
+                    if lab.drain() is None:
+                        return {"ok": False, "info": {"why": "engine not quiet after 40 fair rounds", "hist": hist},
+                                "sigdata": {"flavour": params["flavour"], "base": story[2] if story else params["base"], "ops": norm_hist(hist), "symptom": "no-quiescence"}}
+                    nslots = 0
+                else:
+                    nslots = nslots[1]
+            for j in range(nslots):
                 if params.get("slotmode") == "round":       # coarser schedule: nothing, or one fair round
                     s = e.choose("round", 2)
                     hist.append("r%d" % s)
